@@ -186,8 +186,12 @@ def _graphs(tier):
         for label, edges, order in G.graphs(n, m):
             kinds = "+".join(sorted({kd for _i, _j, kd in edges})) or "none"
             cyc = "cyclic" if _has_cycle(n, edges) else "acyclic"
-            yield {"labels": ["graph=" + label], "payload": {"doc": gen.base_doc(G.components(n, edges, order), paths=G.paths(n)), "options": {}, "meta": "none",
-                                                             "key": f"graph/{kinds}/{cyc}"}}
+            for naming in G.NAMINGS:
+                if naming != "plain" and (len(edges) > 2 or not edges):
+                    continue        # related names (suffix / prefix of one another): graphs of at most 2 edges
+                yield {"labels": ["graph=" + label] + ([f"names={naming}"] if naming != "plain" else []),
+                       "payload": {"doc": gen.base_doc(G.components(n, edges, order, naming), paths=G.paths(n, naming)), "options": {}, "meta": "none",
+                                   "key": f"graph/{kinds}/{cyc}"}}
 
 
 def _has_cycle(n, edges):
